@@ -390,6 +390,88 @@ def gen_def_cases(seed, count):
     return cases
 
 
+def bad_variant(r, g):
+    """a defective variant of a good grammar (one defect injected)"""
+    terms = list(g.terms); rules = [tuple(x) for x in g.rules]
+    k = r.randrange(7)
+    if k == 0 and terms: terms.append(terms[0])                                   # repeated terminal
+    elif k == 1 and terms: terms.append(('zz', terms[0][1]))                      # repeated code
+    elif k == 2: terms.append(('neg', -3))                                        # negative code
+    elif k == 3: rules.append(('Q', None, 0, ['Q'], None))                        # loop / unproductive
+    elif k == 4 and terms: rules.append((terms[0][0], None, 0, [], None))         # terminal as lhs
+    elif k == 5: rules.append((rules[0][0], 'n', 1, [rules[0][0]], [0, 0]))       # repeated transl number
+    else: rules = []                                                              # no rules
+    return Grammar(terms, rules, True)
+
+
+def gen_history_cases(seed, count, maxops=40):
+    r = random.Random(seed)
+    cases = []
+    for i in range(count):
+        pool = [gen_grammar(r, err_prob=0.2) for _ in range(2)]
+        pool += [bad_variant(r, pool[0]), gen_def_grammar(r)]
+        lines = ['case H-%d-%d history' % (seed, i)]
+        for gid, g in enumerate(pool): lines += g.text(gid)
+        n = 0
+        def op(s):
+            nonlocal n
+            n += 1; lines.append('op %d %s' % (n, s))
+        alive = [False] * 3; defined = [None] * 3; nparse = [0] * 3; freed = [set() for _ in range(3)]
+        inputs = {}
+        for gid in (0, 1):
+            inputs[gid] = gen_inputs(r, pool[gid], 4, 6)
+        for _ in range(r.randint(8, maxops)):
+            h = r.randrange(3)
+            if not alive[h]:
+                op('create %d' % h); alive[h] = True; defined[h] = None; nparse[h] = 0; freed[h] = set()
+                continue
+            x = r.random()
+            if x < 0.22:
+                gid = r.choice([0, 0, 1, 1, 2, 3])
+                op('def %d %d' % (h, gid)); defined[h] = gid
+            elif x < 0.40:
+                k = r.choice(['la', 'one', 'cost', 'rec', 'match', 'debug'])
+                v = {'la': r.choice([-2, 0, 1, 2, 5]), 'one': r.choice([0, 1, 1, 7]), 'cost': r.choice([0, 0, 1]), 'rec': r.choice([0, 1]),
+                     'match': r.choice([1, 2, 3, 4]), 'debug': r.choice([0, 0, 1, 2])}[k]
+                op('set %d %s %d' % (h, k, v))
+            elif x < 0.78:
+                gid = defined[h] if defined[h] in (0, 1) else r.choice([0, 1])
+                g = pool[gid]
+                toks = r.choice(inputs[gid])
+                codes = [g.code(t) for t in toks]
+                y = r.random()
+                if y < 0.12 and g.terms:
+                    cs = sorted(c for _, c in g.terms)
+                    bad = r.choice([cs[0] + 1 if len(cs) > 1 and cs[1] > cs[0] + 1 else cs[-1] + 1, cs[-1] + 5, max(0, cs[0] - 1) if cs[0] > 0 else cs[-1] + 2, 123456])
+                    if bad not in cs: codes.insert(r.randint(0, len(codes)), bad)
+                ak, fk = ('user', 'user')
+                if y > 0.9: ak, fk = r.choice([('null', 'user'), ('null', 'null'), ('user', 'null')])
+                if nparse[h] < 60:
+                    op(('parse %d %s %s 15 %s' % (h, ak, fk, ' '.join(map(str, codes)))).strip()); nparse[h] += 1
+            elif x < 0.86:
+                op('err %d' % h)
+            elif x < 0.93 and nparse[h] > 0:
+                slot = r.randrange(nparse[h])
+                if slot not in freed[h]:
+                    op('freetree %d %d 1' % (h, slot)); freed[h].add(slot)
+            else:
+                op('free %d' % h); alive[h] = False
+        # trees outlive the grammar: free every object, then the remaining trees
+        order = [h for h in range(3) if alive[h]]; r.shuffle(order)
+        pending = []
+        for h in order:
+            for slot in range(nparse[h]):
+                if slot not in freed[h]: pending.append((h, slot))
+        r.shuffle(pending)
+        cut = r.randint(0, len(pending))
+        for (h, slot) in pending[:cut]: op('freetree %d %d 1' % (h, slot))
+        for h in order: op('free %d' % h)
+        for (h, slot) in pending[cut:]: op('freetree %d %d 1' % (h, slot))
+        lines.append('end')
+        cases.append(lines)
+    return cases
+
+
 if __name__ == '__main__':
     seed = int(sys.argv[1]); count = int(sys.argv[2]); focus = sys.argv[3] if len(sys.argv) > 3 else 'C01'
     for c in gen_parse_cases(seed, count, focus):
